@@ -33,6 +33,8 @@ SHAPES = {
     "comment": ["ShNode"], "comment-empty": ["ShNode"], "comment-nogroup": ["ShNode"], "comment-block": ["ShNode"], "comment-trailing": ["ShNode"],
     "comment-angle": ["ShNode"], "comment-angle-empty": ["ShNode"], "comment-nested": ["ShNode"], "comment-unnamed+named": ["ShNode"],
     "comment-flags": ["ShNode"], "comment-alternation": ["ShNode"], "comment-angle-alternation": ["ShNode"], "sinkctx-str": ["ShNode"],
+    # product sweep: a capture of a generic root is any of the shapes
+    "product": ["ShNode", "ShList 0", "ShList 1", "ShList 3", "ShTypedNil"],
 }
 # what kind of node the `$x` capture of a shape is for go/printer (the text of a capture that cannot be sliced out of the
 # file is printed): printable (expression, statement, declaration, spec), a comment, a field list, a gogrep node list of
@@ -42,6 +44,7 @@ CLASSES = {
     "results-nil": ["NcFieldList"], "results": ["NcFieldList"], "params": ["NcSlice true"], "params-unnamed": ["NcFieldList"],
     "fields-head": ["NcSlice true"], "fields-tail": ["NcSlice true"], "fields-all": ["NcFieldList"],
     "type": ["NcPrintable"], "names": ["NcSlice false"], "sinkctx": ["NcPrintable"], "sinkctx-str": ["NcPrintable"],
+    "product": ["NcPrintable", "NcComment", "NcField", "NcFieldList", "NcSlice false", "NcSlice true"],
 }
 READABLE = {"": ["true"], "mem": ["false"], "stale": ["true", "false"]}
 # (the two-variable shapes `two:*` -- one capture absent, the other present -- take part in the sweep only: the Coq model's
@@ -93,6 +96,11 @@ def run(c):
         rc, out = c.run_harness(hb, args, timeout=1500)
         rs = [json.loads(l) for l in out.splitlines() if l.startswith("{")]
         runs = [r for r in rs if r.get("k") in ("run", "render")]
+        for m in [r for r in rs if r.get("k") == "prod-meta"]:
+            for k in ("rules", "batches", "roots", "sites", "type_patterns", "contains_patterns", "failing_rules_isolated", "rules_in_failing_sets_not_isolated"):
+                c.coverage["product_%s_alias%s" % (k, m["alias"])] = m[k]
+            if m["roots"] < 100 or m["rules"] < 8000:
+                c.obligation("harness-sanity:product-size", False, json.dumps(m))
         if rc != 0 or not runs:
             c.obligation("harness-run:c07", False, out[-3000:])
             return
@@ -104,6 +112,13 @@ def run(c):
             if r.get("file"):
                 inp["file"] = {"mem": "the analysed file exists in memory only (nothing at the path the FileSet names)",
                                "stale": "the file on disk is an older, shorter version of the analysed source (cut inside the probe sites)"}[r["file"]]
+            if r.get("alias"):
+                inp["GODEBUG"] = "gotypesalias=" + r["alias"]
+            if r["shape"].startswith("product"):
+                inp["target"] = "harness/cmd/c07/catalogue.go (prodHeader + prodSites)"
+                inp["report"], inp["suggest"] = "$x|$y|$$ ($y only when the pattern binds it)", "$x (`$y; $x` for some two-variable rules)"
+                if r.get("where", "").startswith("(") and ") && !(" in r.get("where", ""):
+                    inp["report"] = inp["suggest"] = "(the rule never reports: its filter has the rejecting form F && !F, so that every rule of the engine is evaluated on every match)"
             if r.get("site"):
                 inp["site"] = r["site"]
                 if r["shape"] == "deep":
@@ -116,7 +131,7 @@ def run(c):
                     "doType": "SetReport(ctx.Var(\"x\").Type().String() + ctx.Var(\"x\").Type().Underlying().String())",
                     "doOther": "SetSuggest(ctx.Var(\"nosuchvar\").Text() + ctx.Var(\"nosuchvar\").Type().String())"}.get(r["do"], ""))
             if r.get("reports"):
-                c.nontriv((r["inst"], r["shape"], r["trunc"], r["gover"], r["reused"]))
+                c.nontriv((r["inst"], r["shape"], r.get("pattern") if r["shape"].startswith("product") else "", r["trunc"], r["gover"], r["reused"], r.get("alias", "")))
             if r.get("load_err"):
                 c.obligation("harness-sanity:rule-loads", False, "%s / %s: %s" % (r["inst"], r["shape"], r["load_err"]))
                 continue
@@ -124,9 +139,14 @@ def run(c):
                 c.fail("oracle", "Run panics", input=inp, observed=r["panic"], expected="Run returns")
             for b in r.get("bad") or []:
                 fid = None
+                # gogrep binds `$*x` of `if $*x { ... }` to (condition, init statement) -- not in source order: the list's
+                # Pos() lies behind its End()
+                if (r.get("pattern", "").startswith("if $*x ") and "At(m[\"x\"])" in r.get("extra", "") and b["what"] == "report positions outside the file"
+                        and b["pos"] > b["end"] >= 0):
+                    fid = "if-opt-capture-reversed"
                 c.fail("oracle", "malformed report: " + b["what"], input=inp, observed=b, expected="non-nil node inside the file, group set", finding=fid)
             if r["k"] == "run" and r.get("ctor"):
-                key = (r["ctor"].split("/")[0], r["shape"], r.get("file", ""))
+                key = (r["ctor"].split("/")[0], "product" if r["shape"].startswith("product") else r["shape"], r.get("file", ""))
                 observed[key] = observed.get(key, False) or bool(r.get("panic"))
         c.coverage["sweep_runs_%d" % state["n"]] = len(runs)
         if not gen_ok:
